@@ -934,6 +934,72 @@ def declareRec (ex : Path → Bool) (who now : Str) (vr : VRec) (p : Prod) : Exc
     (f, if f = p.flavor then i else i.withTrim (trimInfo ex trimDir orderFile i.paths))
   .ok { vr with flavors := dset others p.flavor ((stamp old who now).withPaths pi) }
 
+/-! ### The same with symbolic links: `os.path.realpath` as a parameter
+
+`VersionFile.write` is the one place of the declaration path that resolves symbolic links: `trimDir = realpath(trimDir)`,
+`isSubpath(value, trimDir)` compares real paths, and the value that is cut is `realpath(value)`.  (`canonicalizePaths` and
+`addFlavor` compare the strings as they were typed.)  `real` = `os.path.realpath` on absolute paths; the functions
+above are the case `real = id` (`declareRecR_id`). -/
+
+def trimKeyR (real : Path → Path) (ex : Path → Bool) (trimDir : Option Path) (i : PInfo) (k : PKey) : PInfo :=
+  match i.getK k, trimDir with
+  | some (.path v), some td =>
+    if v.abs && ex v then
+      match (real v).under (real td) with
+      | some rest =>
+        let i := i.setK k (.path (Path.rel rest))
+        if k = .table then
+          let dirName : Option Path := match i.productDir with
+            | some pv => if pv.truthy then
+                (match pv.asPath, i.upsDir with
+                 | some d, some u => (match u.asPath with | some up => some (d.join up) | none => some d)
+                 | some d, none => some d
+                 | none, _ => none)
+              else none
+            | none => none
+          match dirName with
+          | some dn =>
+            match (Path.rel rest).under dn with
+            | some r2 => i.setK k (.path (Path.rel r2))
+            | none => i
+          | none => i
+        else i
+      | none => i
+    else i
+  | _, _ => i
+
+def trimInfoR (real : Path → Path) (ex : Path → Bool) (trimDir : Option Path) (order : List PKey) (i : PInfo) : PInfo :=
+  order.foldl (trimKeyR real ex trimDir) i
+
+def declarePathsR (real : Path → Path) (ex : Path → Bool) (p : Prod) (old : Option PInfo) : Except Err (Prod × PInfo) :=
+  match canonicalizePaths p with
+  | .error e => .error e
+  | .ok c =>
+  if !c.table.truthy then .error .unmodelled else
+  let pi := addFlavorPaths old c.dir c.table c.upsDir
+  if !c.dir.truthy then .error .unbound else
+  let root := stackRoot c.db
+  let trimDir := if ex root then some root else none
+  .ok (c, trimInfoR real ex trimDir orderNew pi)
+
+def declareRecR (real : Path → Path) (ex : Path → Bool) (who now : Str) (vr : VRec) (p : Prod) : Except Err VRec :=
+  let old := dget vr.flavors p.flavor
+  match declarePathsR real ex p (old.map Info.paths) with
+  | .error e => .error e
+  | .ok (c, pi) =>
+  let root := stackRoot c.db
+  let trimDir := if ex root then some root else none
+  let others := vr.flavors.map fun (f, i) =>
+    (f, if f = p.flavor then i else i.withTrim (trimInfoR real ex trimDir orderFile i.paths))
+  .ok { vr with flavors := dset others p.flavor ((stamp old who now).withPaths pi) }
+
+/-- `os.path.realpath` for a tree whose only symbolic links are `links` (link ↦ target, both absolute): the first
+link that is a prefix of the path is replaced by its target -/
+def realOf (links : List (Path × Path)) (p : Path) : Path :=
+  match links.find? (fun l => p.subpath l.1) with
+  | some l => { abs := l.2.abs, segs := l.2.segs ++ p.segs.drop l.1.segs.length }
+  | none => p
+
 /-- `Product(name, version, flavor, dir, table, db=db, ups_dir=ups_dir).resolvePaths()` from the path entries
 of a block -/
 def resolveInfo (ex : Path → Bool) (name version flavor : Str) (db : Path) (i : PInfo) : Except Err Prod :=
